@@ -94,12 +94,13 @@ Lemma other_ops_keep_field fuel s o i :
   (forall j v d, o = OSet j v d -> j <> i) -> (forall q, o <> OGet q) ->
   d_in (fst (step prog noeq fams fuel s o)) i = d_in s i.
 Proof.
-  intros Hset Hget. destruct o as [j v d | d | c v | c v | q | fam n |]; cbn [step].
+  intros Hset Hget. destruct o as [j v d | d | c v | c v | ef | q | fam n |]; cbn [step].
   - specialize (Hset j v d eq_refl).
     destruct (f_dur (d_in (new_revision fams (zalsa_mut fams s)) j) =? D_NEVER); cbn [fst].
     + rewrite new_revision_in, zalsa_mut_in. reflexivity.
     + cbn. rewrite upd_other by exact Hset. rewrite new_revision_in, zalsa_mut_in. reflexivity.
   - destruct (d =? D_NEVER); cbn; rewrite new_revision_in, zalsa_mut_in; reflexivity.
+  - reflexivity.
   - reflexivity.
   - reflexivity.
   - exfalso. apply (Hget q). reflexivity.
